@@ -229,6 +229,45 @@ def lambda_body(tr, node, argname_out):
         del tr.env.names[arg]
 
 
+
+def _is_cancel(stmt) -> bool:
+    return (isinstance(stmt, ast.Expr) and isinstance(stmt.value, ast.Call) and dotted(stmt.value.func) == 'self._cancel_read')
+
+
+def cancel_sites_harmless(fn) -> bool:
+    """every `self._cancel_read()` statement of fn is outside any loop, or followed by break/raise/return"""
+
+    def walk(block, in_loop) -> bool:
+        for i, stmt in enumerate(block):
+            if _is_cancel(stmt):
+                nxt = block[i + 1] if i + 1 < len(block) else None
+                if in_loop and not isinstance(nxt, (ast.Break, ast.Raise, ast.Return)):
+                    return False
+                continue
+            if isinstance(stmt, (ast.FunctionDef, ast.AsyncFunctionDef, ast.ClassDef)):
+                continue
+            loop = in_loop or isinstance(stmt, (ast.While, ast.For, ast.AsyncFor))
+            for field in ('body', 'orelse', 'finalbody'):
+                sub = getattr(stmt, field, None)
+                if isinstance(sub, list) and sub and isinstance(sub[0], ast.stmt):
+                    # the else/finally of a loop statement itself is outside that loop
+                    if not walk(sub, loop if field == 'body' or not isinstance(stmt, (ast.While, ast.For, ast.AsyncFor)) else in_loop):
+                        return False
+            for h in getattr(stmt, 'handlers', []) or []:
+                if not walk(h.body, in_loop):
+                    return False
+            for c in getattr(stmt, 'cases', []) or []:
+                if not walk(c.body, in_loop):
+                    return False
+        return True
+
+    # a cancel hidden in an expression (lambda, conditional expression) is not a shape this check knows
+    stmts = sum(1 for n in ast.walk(fn) if isinstance(n, ast.Call) and dotted(n.func) == 'self._cancel_read')
+    plain = sum(1 for n in ast.walk(fn) if _is_cancel(n))
+    if stmts != plain:
+        return False
+    return walk(fn.body, False)
+
 def generate(repo: str) -> str:
     msg_tree = ast.parse(open(os.path.join(repo, MSG)).read())
     conn_src = open(os.path.join(repo, CONN)).read()
@@ -350,6 +389,14 @@ def generate(repo: str) -> str:
             read_kept = False
         elif 'asyncio.wait' in step_calls and 'asyncio.ensure_future' in step_calls:
             read_kept = True
+            # ... and nothing else drops it while the session goes on: every `self._cancel_read()` of the
+            # class either sits outside the loops of its function (the `finally` of _main) or is followed, in
+            # its block, by break / raise / return (the session is ending)
+            for fn in ast.walk(peer_tree):
+                if not isinstance(fn, (ast.FunctionDef, ast.AsyncFunctionDef)) or fn.name == '_cancel_read':
+                    continue
+                if not cancel_sites_harmless(fn):
+                    read_kept = False
         else:
             raise Untranslatable('Peer._read_message_or_nop: unknown way of waiting for the read')
     else:
